@@ -199,7 +199,9 @@ pub fn run(args: &Args) {
             observe_memory(&mut t, &p, &format!("built:{i}"), true, gets);
             // sign / clear / public clear() histories on the in-memory object
             if i % 3 == 0 {
-                let key = gen_::KEYS[(i as usize / 3) % 4];
+                // the four keys of tests/assets plus the RSA-2048 key of test_assets (whose signature makes
+                // the signature header's data section a multiple of 8: no padding)
+                let key = ["rsa4096", "rsa3072p", "ed25519", "ecdsa", "asset"][(i as usize / 3) % 5];
                 if guarded(|| p.sign_with_timestamp(gen_::signer(key), 1_600_000_000u32)).map(|r| r.is_ok()).unwrap_or(false) {
                     observe_memory(&mut t, &p, &format!("signed:{i}:{key}"), true, false);
                 }
